@@ -135,9 +135,30 @@ theorem findChildren_cons {m : XmlMeta} {var : XmlVar} (hf : ElemFactsN m var)
     (hc : m.choices = []) : ∃ rest, m.findChildren var.qname = var :: rest := by
   exact ⟨(m.findWildcard var.qname).toList, by simp [XmlMeta.findChildren, hf.find, hc]⟩
 
+/-- a var that takes any number of child elements: `ElementNode.child` records only the non-list
+*element* vars in `assigned` (a wildcard, list or not, is never recorded) -/
+def multi (var : XmlVar) : Bool := !var.isElement || var.listElement
+
+theorem multi_elem {var : XmlVar} (h : var.kind = .element) : multi var = var.listElement := by
+  simp [multi, VarCore.isElement, h]
+
+theorem multi_false {var : XmlVar} (h : multi var = false) : var.kind = .element ∧ var.listElement = false := by
+  simpa [multi, VarCore.isElement] using h
+
+/-- `AssignedOK` / `assignedAfter` of the F1 proof, keyed on `multi` -/
+def AssignedOKN : List Nat → List (XmlVar × Val) → Prop
+  | _, [] => True
+  | asg, (var, _) :: rest =>
+    if multi var then AssignedOKN asg rest
+    else var.index ∉ asg ∧ AssignedOKN (var.index :: asg) rest
+
+def assignedAfterN : List Nat → List (XmlVar × Val) → List Nat
+  | asg, [] => asg
+  | asg, (var, _) :: rest => assignedAfterN (if multi var then asg else var.index :: asg) rest
+
 /-- the node state after `child` found `var` under wrapper `wr` -/
 def stStep (st : ElState) (wr : Option QN) (var : XmlVar) : ElState :=
-  ⟨if var.listElement then st.assigned else var.index :: st.assigned,
+  ⟨if multi var then st.assigned else var.index :: st.assigned,
    pushWs st.wrappers var.qname wr⟩
 
 def stAfter (st : ElState) (wr : Option QN) : List (XmlVar × Val) → ElState
@@ -148,17 +169,18 @@ theorem childNode_N (e : BEnv) (Γ : Ctx) (pcfg : ParserConfig) {m : XmlMeta} {v
     (hf : ElemFactsN m var) (hc : m.choices = []) (st : ElState)
     (a : List (QN × Str)) (M : NsMap) {node : Node}
     (hb : buildNode e Γ m var.qname var a M = .ok (some node))
-    (hasg : var.listElement = false → var.index ∉ st.assigned) :
+    (hasg : multi var = false → var.index ∉ st.assigned) :
     childNode e Γ pcfg m st var.qname a M var.wrapperQName = .ok (node, stStep st var.wrapperQName var) := by
+  have hm := multi_elem hf.isElem
   have hidx : var.index ≠ 0 := by have := hf.index; omega
   obtain ⟨rest, hfc⟩ := findChildren_cons hf hc
   by_cases hl : var.listElement = true
   · cases hwq : var.wrapperQName <;>
-      simp [childNode, childNode.go, hfc, hl, hb, stStep, pushWs, hwq]
+      simp [childNode, childNode.go, hfc, hl, hb, stStep, hm, pushWs, hwq]
   · have hl' : var.listElement = false := by simpa using hl
     cases hwq : var.wrapperQName <;>
-      simp [childNode, childNode.go, hfc, hl', hb, stStep, pushWs, hwq,
-        VarCore.isElement, hf.isElem, hidx, hasg hl']
+      simp [childNode, childNode.go, hfc, hl', hb, stStep, hm, pushWs, hwq,
+        VarCore.isElement, hf.isElem, hidx, hasg (by rw [hm]; exact hl')]
 
 /-- what the parser does with the child element `t` written for the entry `(var, y)`: the element
 is not taken for a wrapper, `ElementNode.child` hands it to `var` (whatever was assigned before, as
@@ -168,7 +190,7 @@ def ItemK (e : BEnv) (Γ : Ctx) (pcfg : ParserConfig) (M : NsMap) (m : XmlMeta) 
     (y : Val) (t : Tree) : Prop :=
   ∃ q a text kids node, t = .node q a M text kids none ∧
     m.wrappers.any (·.1 = q) = false ∧
-    (∀ st : ElState, (var.listElement = false → var.index ∉ st.assigned) →
+    (∀ st : ElState, (multi var = false → var.index ∉ st.assigned) →
       childNode e Γ pcfg m st q a M var.wrapperQName = .ok (node, stStep st var.wrapperQName var)) ∧
     parseNode e Γ pcfg node t = .ok ⟨[(some var.qname, y)], 0⟩
 
@@ -180,11 +202,11 @@ theorem itemK_of_itemP {e : BEnv} {Γ : Ctx} {pcfg : ParserConfig} {M : NsMap} {
     fun st hasg => childNode_N e Γ pcfg hf hc st a M hb hasg, hp⟩
 
 theorem stAfter_assigned (wr : Option QN) : ∀ (entries : List (XmlVar × Val)) (st : ElState),
-    (stAfter st wr entries).assigned = assignedAfter st.assigned entries := by
+    (stAfter st wr entries).assigned = assignedAfterN st.assigned entries := by
   intro entries
   induction entries with
   | nil => intro st; rfl
-  | cons en r ih => intro st; simp [stAfter, assignedAfter, ih, stStep]
+  | cons en r ih => intro st; simp [stAfter, assignedAfterN, ih, stStep]
 
 /-- the child elements of one var (all under the same wrapper `wr`, `none` = directly under the
 element), followed by `rest` -/
@@ -193,7 +215,7 @@ theorem parseKids_itemsN (e : BEnv) (Γ : Ctx) (pcfg : ParserConfig) (M : NsMap)
     (rest : List Tree) :
     ∀ (entries : List (XmlVar × Val)) (st : ElState) (ro : Objs) (rw : Nat) (stf : ElState),
     (∀ en ∈ entries, en.1.wrapperQName = wr ∧ ItemK e Γ pcfg M m en.1 en.2 (tr en)) →
-    AssignedOK st.assigned entries →
+    AssignedOKN st.assigned entries →
     parseKids e Γ pcfg m (stAfter st wr entries) wr rest = .ok (⟨ro, rw⟩, stf) →
     parseKids e Γ pcfg m st wr (entries.map tr ++ rest) =
       .ok (⟨entries.map (fun en => (some en.1.qname, en.2)) ++ ro, rw⟩, stf) := by
@@ -206,13 +228,13 @@ theorem parseKids_itemsN (e : BEnv) (Γ : Ctx) (pcfg : ParserConfig) (M : NsMap)
     have hh := h (var, y) (by simp)
     have hwr : var.wrapperQName = wr := hh.1
     obtain ⟨q, a, text, kids, node, ht, hnwq, hch, hp⟩ : ItemK e Γ pcfg M m var y (tr (var, y)) := hh.2
-    have hasg' : (var.listElement = false → var.index ∉ st.assigned) ∧
-        AssignedOK (stStep st wr var).assigned r := by
-      by_cases hl : var.listElement = true
-      · simp only [AssignedOK, hl, if_true] at hasg
+    have hasg' : (multi var = false → var.index ∉ st.assigned) ∧
+        AssignedOKN (stStep st wr var).assigned r := by
+      by_cases hl : multi var = true
+      · simp only [AssignedOKN, hl, if_true] at hasg
         exact ⟨fun h' => by simp [hl] at h', by simpa [stStep, hl] using hasg⟩
-      · have hl' : var.listElement = false := by simpa using hl
-        simp only [AssignedOK, hl', Bool.false_eq_true, if_false] at hasg
+      · have hl' : multi var = false := by simpa using hl
+        simp only [AssignedOKN, hl', Bool.false_eq_true, if_false] at hasg
         exact ⟨fun _ => hasg.1, by simpa [stStep, hl'] using hasg.2⟩
     have hchild := hch st hasg'.1
     rw [hwr] at hchild
@@ -235,17 +257,17 @@ def stAfterChunks (st : ElState) : List (XmlVar × Val) → ElState
   | [] => st
   | c :: r => stAfterChunks (stAfter st c.1.wrapperQName (chunkEntries c)) r
 
-theorem AssignedOK_append (a b : List (XmlVar × Val)) : ∀ asg : List Nat,
-    AssignedOK asg (a ++ b) ↔ AssignedOK asg a ∧ AssignedOK (assignedAfter asg a) b := by
+theorem AssignedOKN_append (a b : List (XmlVar × Val)) : ∀ asg : List Nat,
+    AssignedOKN asg (a ++ b) ↔ AssignedOKN asg a ∧ AssignedOKN (assignedAfterN asg a) b := by
   induction a with
-  | nil => intro asg; simp [AssignedOK, assignedAfter]
+  | nil => intro asg; simp [AssignedOKN, assignedAfterN]
   | cons en r ih =>
     intro asg
     obtain ⟨var, y⟩ := en
-    by_cases hl : var.listElement = true
-    · simp [AssignedOK, assignedAfter, hl, ih]
-    · have hl' : var.listElement = false := by simpa using hl
-      simp [AssignedOK, assignedAfter, hl', ih, and_assoc]
+    by_cases hl : multi var = true
+    · simp [AssignedOKN, assignedAfterN, hl, ih]
+    · have hl' : multi var = false := by simpa using hl
+      simp [AssignedOKN, assignedAfterN, hl', ih, and_assoc]
 
 theorem chunkTrees_none {M : NsMap} {tr : Val → Tree} {var : XmlVar} {x : Val}
     (h : var.wrapperQName = none) : chunkTrees M tr var x = (itemsN var x).map tr := by
@@ -261,7 +283,7 @@ theorem parseKids_chunks (e : BEnv) (Γ : Ctx) (pcfg : ParserConfig) (M : NsMap)
     ∀ (chunks : List (XmlVar × Val)) (st : ElState),
     (∀ c ∈ chunks, (∀ w, c.1.wrapperQName = some w → m.wrappers.any (·.1 = w) = true) ∧
       ∀ en ∈ chunkEntries c, ItemK e Γ pcfg M m en.1 en.2 (tr en)) →
-    AssignedOK st.assigned (chunks.flatMap chunkEntries) →
+    AssignedOKN st.assigned (chunks.flatMap chunkEntries) →
     parseKids e Γ pcfg m st none
         (chunks.flatMap fun c => chunkTrees M (fun y => tr (c.1, y)) c.1 c.2) =
       .ok (⟨(chunks.flatMap chunkEntries).map (fun en => (some en.1.qname, en.2)), 0⟩,
@@ -275,7 +297,7 @@ theorem parseKids_chunks (e : BEnv) (Γ : Ctx) (pcfg : ParserConfig) (M : NsMap)
     have hc1 := h (var, x) (by simp)
     have hwrapOK := hc1.1
     simp only [List.flatMap_cons] at hasg ⊢
-    rw [AssignedOK_append] at hasg
+    rw [AssignedOKN_append] at hasg
     have hentries : ∀ en ∈ chunkEntries (var, x),
         en.1.wrapperQName = var.wrapperQName ∧ ItemK e Γ pcfg M m en.1 en.2 (tr en) := by
       intro en hen
